@@ -10,7 +10,10 @@ Record case := {
   c_dec_fresh : option tnode;     (* Go: FromBytes(d, Bytes(d, cap)) with a fresh dictionary *)
   c_dec_pre : option tnode;       (* Go: the same with the pre-populated dictionary *)
   c_dec_nodict : option tnode;    (* Go: DeserializeNoDict(SerializeNoDict(cap)) *)
-  c_src_untouched : bool          (* Go: the source tree dumps identically after the three encodings *)
+  c_src_untouched : bool;         (* Go: the source tree dumps identically after the three encodings *)
+  c_bad : option (bytes * option tnode)
+                                  (* malformed stream (a corrupted SerializeNoDict output) and what DeserializeNoDict
+                                     answered for it (None = error); exercises the decoder's error cases *)
 }.
 
 (* every stack of the decoded tree exists in the original with the same self value *)
@@ -58,4 +61,8 @@ Definition check_case (c : case) : verdict :=
      corr (N.eqb (t_minval cap t) (c_minval c)) "t_minval differs from Tree.minValue";
      corr (opt_eqb m_nodict (c_dec_nodict c)) "model of SerializeNoDict/DeserializeNoDict differs";
      corr (opt_eqb m_fresh (c_dec_fresh c)) "model of Serialize/Deserialize (fresh dictionary) differs";
-     corr (opt_eqb m_pre (c_dec_pre c)) "model of Serialize/Deserialize (dictionary with entries) differs"])%list.
+     corr (opt_eqb m_pre (c_dec_pre c)) "model of Serialize/Deserialize (dictionary with entries) differs";
+     corr (match c_bad c with
+           | None => true
+           | Some (bs, r) => opt_eqb (tc_deserialize_nodict bs) r
+           end) "model of DeserializeNoDict differs on a malformed stream"])%list.
